@@ -545,4 +545,20 @@ Proof.
 Qed.
 
 
+(** A history of PUTs: nothing in the code path consults the backend before Put, so the
+    answer to each PUT of a history is the answer to that PUT alone — whether the object
+    was already retrievable at the request path (an earlier PUT of the history, or an object
+    that was there) does not matter: every time the backend receives the caller's value and
+    the client gets back the path, tag and instant the backend answered. *)
+Theorem put_history fl reqpath (steps : list (string * obj)) :
+  (forall data o, In (data, o) steps ->
+     exists b, pay_enc cd fl data = Some b /\ pay_dec cd fl b = Some data
+               /\ hdr_loc_ok hd o = true /\ hdr_meta_ok cd hd o = true) ->
+  map (fun s => e2e_put cd hd fl reqpath (fst s) (Found (snd s))) steps
+  = map (fun s => (COk (put_view reqpath (snd s)), Some (fst s))) steps.
+Proof.
+  intros H. apply map_ext_in. intros [data o] Hs. cbn [fst snd].
+  destruct (H data o Hs) as (b & E1 & E2 & E3 & E4). apply (put_roundtrip fl reqpath data o b); assumption.
+Qed.
+
 End E2E.
